@@ -91,4 +91,13 @@ CHECKS['C06'] = dict(
          'run-leaves have unique program names and the call log must equal the short-circuit order of the tree.',
     note='A line break before an infix operator is treated as may-be-rejected (thorough tier only); arguments may continue on following lines, so malformed '
          'expressions are placed at the end of the file.')
+CHECKS['C14'] = dict(
+    level='model_checking',
+    technique='explicit-state exploration of real StringSource objects: every short sequence of access events (freeze / as_str / as_lines fully, partially, in two steps / as_file / write_to) x source kind x transformer chain x mem_buff_size x text, every observation compared with one reference text',
+    text='1.9e6 event sequences (quick) on sources built by the public factories/parsers: {constant, here-document, file, program output} x model frozen first or not x 15 transformer chains '
+         '(thorough 20) x all event sequences of length <=2 plus freeze-prefixed length 3 (thorough: all of length 3) x mem_buff_size {1,2,|T|,|T|+1,8192} (and 100/8191..8193 on large texts) x all texts of '
+         'length <=2 (thorough 3) over {a,LF,CR,FF,NEL,LS} plus CR LF / no-final-newline / buffer-sized texts.  Every observation must equal the single reference text and its division at LF.  '
+         'CLI slice: M, identity-wrapped M, ( M && M ), run-cat-wrapped M and equals between all source kinds must all pass for the same text, with MainPrograms built with mem_buff_size 1 (3, 7).',
+    note='Found and repaired KF-C14-SPLITLINES (fix: commit in /repo); KF-C14-CR (universal-newline translation of CR) is a recorded known finding matched by predicate + defect model; '
+         'virtual children write through the file descriptor like real ones.')
 NOT_APPLICABLE = {}
